@@ -36,6 +36,7 @@ func init() {
 			g(rep, "QUEUE-UNCONDITIONAL", func() { ruleQUEUEUNCONDITIONAL(p, rep) })
 			g(rep, "FLAG-MONOTONE", func() { ruleFLAGMONOTONE(p, rep) })
 			g(rep, "IO-OWNER", func() { ruleIOOWNER(p, rep) })
+			g(rep, "TRUNCATE-KEEPS-PREVIOUS", func() { ruleTRUNCATEKEEPSPREVIOUS(p, rep) })
 		},
 	})
 	register(&propertyDef{
@@ -118,6 +119,7 @@ func init() {
 			g(rep, "TAIL-OFFSET", func() { ruleTAILOFFSET(p, rep) })
 			g(rep, "WAL-RELEASE-ON-FREE", func() { ruleWALRELEASEONFREE(p, rep) })
 			g(rep, "PAGE-HEADER-AGREE", func() { rulePAGEHEADERAGREE(p, rep) })
+			g(rep, "READ-START-AGREE", func() { ruleREADSTARTAGREE(p, rep) })
 			g(rep, "TX-PAIRING", func() { ruleTXPAIRING(p, rep) })
 			g(rep, "ERRDISC", func() { ruleERRDISC(p, rep, "pq", false) })
 			g(rep, "ORDER", func() { ruleORDER(p, rep, orderSet("ORDER", "SLOT")) })
@@ -192,6 +194,7 @@ func init() {
 			"plus (UNDO-JOURNAL, INV-FL) no page vanishes on rollback. Not decided: the conservation equation, FileStats arithmetic, truncation.",
 		run: func(p *Program, rep *Report, tier string) {
 			g(rep, "SNAPSHOT-AFTER-ALLOC", func() { ruleSNAPSHOTAFTERALLOC(p, rep) })
+			g(rep, "FILE-END-AGREE", func() { ruleFILEENDAGREE(p, rep) })
 			g(rep, "CAPACITY", func() { ruleCAPACITY(p, rep) })
 			g(rep, "DEFERFREE", func() { ruleDEFERFREE(p, rep) })
 			g(rep, "UNDO-JOURNAL", func() { ruleUNDOJOURNAL(p, rep) })
@@ -269,6 +272,7 @@ func init() {
 			g(rep, "CHECKSUM-COVERAGE", func() { ruleCHECKSUMCOVERAGE(p, rep) })
 			g(rep, "NO-PANIC-ON-INPUT", func() { ruleNOPANICONINPUT(p, rep) })
 			g(rep, "TXID-COMPARE", func() { ruleTXIDCOMPARE(p, rep) })
+			g(rep, "TRUNCATE-KEEPS-PREVIOUS", func() { ruleTRUNCATEKEEPSPREVIOUS(p, rep) })
 			g(rep, "ORDER", func() { ruleORDER(p, rep, orderSet("FINALIZE")) })
 		},
 	})
@@ -277,6 +281,7 @@ func init() {
 		explain: "Decides the callback clause only: (PQTX) Settings.Flushed / Settings.ACKed and the counters behind them are only touched after Commit()==nil of the one flush/ACK transaction; (CALLBACK-ARG) the callback's argument is the event count taken before the transaction, not the counter after its reset. Pending/Active/Available arithmetic is not decided.",
 		run: func(p *Program, rep *Report, tier string) {
 			g(rep, "COUNTER-SOURCES", func() { ruleCOUNTERSOURCES(p, rep) })
+			g(rep, "READ-START-AGREE", func() { ruleREADSTARTAGREE(p, rep) })
 			g(rep, "PQTX", func() { rulePQTX(p, rep) })
 			g(rep, "CALLBACK-ARG", func() { ruleCALLBACKARG(p, rep) })
 			g(rep, "EVENT-BOUNDARY", func() { ruleEVENTBOUNDARY(p, rep) })
@@ -289,6 +294,7 @@ func init() {
 			g(rep, "LOCKS", func() { ruleLOCKS(p, rep, func(r lockRoot) bool { return r.name == "Open" || r.name == "File.Close" }, false) })
 			g(rep, "FLOCK-OWNER", func() { ruleFLOCKOWNER(p, rep) })
 			g(rep, "FLOCK-NO-UNLINK", func() { ruleFLOCKNOUNLINK(p, rep) })
+			g(rep, "FLOCK-ACQUIRE", func() { ruleFLOCKACQUIRE(p, rep) })
 		},
 	})
 }
